@@ -28,9 +28,19 @@ def parse_patch(text: str) -> dict[str, list[tuple[int, list[str], list[str]]]]:
     cur = None
     lines = text.splitlines()
     i = 0
+    in_pkg = True  # is the file section we are in a package source (the only files the checks look at)?
     while i < len(lines):
         ln = lines[i]
+        if ln.startswith("diff --git "):
+            tgt = ln.split(" b/", 1)[-1] if " b/" in ln else ""
+            in_pkg = tgt.startswith("myst_parser/") and tgt.endswith(".py")
         if ln.startswith(("new file mode", "deleted file mode", "rename from", "GIT binary patch", "Binary files")):
+            if not in_pkg:  # e.g. a new test file: irrelevant here, skip the whole section
+                i += 1
+                while i < len(lines) and not lines[i].startswith("diff --git "):
+                    i += 1
+                cur = None
+                continue
             raise Stale(f"unsupported patch feature: {ln.split()[0]} {ln.split()[1] if len(ln.split()) > 1 else ''}")
         if ln.startswith("--- "):
             old = ln[4:].split("\t")[0]
